@@ -70,90 +70,75 @@ theorem agree_outside (env : Env) (old new : List NetNode) (hlen : new.length = 
       exact hstep j _ hn hs (fun i hi hsi => ih i hi hsi)
     · rw [getD_none_of_ge _ _ (by rw [evalNet_length]; omega), getD_none_of_ge _ _ (by rw [evalNet_length]; omega)]
 
-/-- a mux whose one-bit selector is 1 ignores data input 0 -/
-theorem evalMux_t_ignores (w : Nat) (A A' D : Option BV4) : evalMux w [some [B4.t], A, D] = evalMux w [some [B4.t], A', D] := by
-  rw [evalMux_sel_t, evalMux_sel_t]
+/-- the value seen at one input port -/
+def lookV (v : Vals) (o : Option Nat) : Option BV4 :=
+  match o with
+  | none => none
+  | some i => v.getD i none
 
-structure MaskedRewire (old new : List NetNode) (S : Nat → Bool) (k m c a b w : Nat) (ty : CType) (K : NetNode) (port : Nat) : Prop where
+theorem lookV_congr (v v' : Vals) (o : Option Nat) (h : ∀ i, o = some i → v.getD i none = v'.getD i none) : lookV v o = lookV v' o := by
+  cases o with
+  | none => rfl
+  | some i => exact h i rfl
+
+theorem gather3 (v : Vals) (a b c : Option Nat) : gather v [a, b, c] = [lookV v a, lookV v b, lookV v c] := by
+  rfl
+
+/-- data input `p` of a two-input mux -/
+def pick {α : Type} (p : Bool) (x y : α) : α := if p then y else x
+
+theorem evalMux_ofBool (w : Nat) (s : Bool) (e0 e1 : Option BV4) :
+    evalMux w [some [B4.ofBool s], e0, e1] = copyIn w (pick s e0 e1) := by
+  cases s
+  · simpa [pick, B4.ofBool] using evalMux_sel_f w e0 e1
+  · simpa [pick, B4.ofBool] using evalMux_sel_t w e0 e1
+
+/-- `m = mux(c; d0, d1)` at index `m`; consumer `K` (index `k`) reads `m` at `port` and is rewired to data input `p` of the mux.
+    `S` marks the tainted nodes. -/
+structure MaskedRewire (old new : List NetNode) (S : Nat → Bool) (k m c d0 d1 w : Nat) (ty : CType) (K : NetNode) (port : Nat) (p : Bool) : Prop where
   len : new.length = old.length
   topo : Topo old
   same : ∀ j, j ≠ k → new[j]? = old[j]?
   hK : old[k]? = some K
-  hK' : new[k]? = some { K with ins := K.ins.set port (some a) }
+  hK' : new[k]? = some { K with ins := K.ins.set port (some (pick p d0 d1)) }
   hport : K.ins[port]? = some (some m)
-  hm : old[m]? = some ⟨.node .mux ty, w, [some c, some a, some b]⟩
+  hm : old[m]? = some ⟨.node .mux ty, w, [some c, some d0, some d1]⟩
   hmk : m < k
   sk : S k = true
   sbefore : ∀ j, j < k → S j = false
-  /-- every untainted node after `K` either reads no tainted node, or is a mux that reads taint only at data input 0 and whose
-      selector has the value of `c` in every environment considered -/
+  /-- every untainted node after `K` either reads no tainted node, or is a two-input mux with untainted selector that reads taint
+      at one data input only (the other one is untainted) -/
   after : ∀ j n, k < j → old[j]? = some n → S j = false →
     (∀ i, some i ∈ n.ins → S i = false) ∨
-    (∃ ty' w' c' d0 d1, n = ⟨.node .mux ty', w', [some c', d0, some d1]⟩ ∧ S c' = false ∧ S d1 = false ∧ c' ≠ k)
+    (∃ ty' w' c' e0 e1, n = ⟨.node .mux ty', w', [some c', e0, e1]⟩ ∧ S c' = false)
 
-/-- what the environment has to satisfy: the mux condition is a defined bit, the masking muxes' selectors have its value, and the
-    bypassed input has the width of the mux -/
-structure MaskEnv (env : Env) (old : List NetNode) (S : Nat → Bool) (k c a w : Nat) : Prop where
-  cdef : (evalNet env old).getD c none = some [B4.t] ∨ (evalNet env old).getD c none = some [B4.f]
-  awidth : ∃ va, (evalNet env old).getD a none = some va ∧ va.length = w
-  conds : ∀ j ty' w' c' d0 d1, k < j → old[j]? = some ⟨.node .mux ty', w', [some c', d0, some d1]⟩ → S j = false →
-    (∃ i, d0 = some i ∧ S i = true) → (evalNet env old).getD c' none = (evalNet env old).getD c none
+/-- what the environment has to satisfy: the mux condition is a defined bit `cb`, the bypassed input has the width of the mux, and
+    every later mux that reads taint has a defined one-bit selector that does not select a tainted data input when the taint is real
+    (`cb ≠ p`) — which is the case when its condition equals `c` and the taint sits at data input `p`, or its condition is the negation
+    of `c` and the taint sits at the other data input -/
+structure MaskEnv (env : Env) (old : List NetNode) (S : Nat → Bool) (k c d0 d1 w : Nat) (p cb : Bool) : Prop where
+  cval : (evalNet env old).getD c none = some [B4.ofBool cb]
+  awidth : ∃ va, (evalNet env old).getD (pick p d0 d1) none = some va ∧ va.length = w
+  conds : cb ≠ p → ∀ j ty' w' c' e0 e1, k < j → old[j]? = some ⟨.node .mux ty', w', [some c', e0, e1]⟩ → S j = false →
+    (∃ i, (e0 = some i ∨ e1 = some i) ∧ S i = true) →
+    ∃ s : Bool, (evalNet env old).getD c' none = some [B4.ofBool s] ∧ ∀ i, pick s e0 e1 = some i → S i = false
 
-theorem masked_rewire_defined {old new : List NetNode} {S : Nat → Bool} {k m c a b w : Nat} {ty : CType} {K : NetNode} {port : Nat}
-    (h : MaskedRewire old new S k m c a b w ty K port) (env : Env) (he : MaskEnv env old S k c a w) :
+theorem masked_rewire_defined {old new : List NetNode} {S : Nat → Bool} {k m c d0 d1 w : Nat} {ty : CType} {K : NetNode} {port : Nat} {p cb : Bool}
+    (h : MaskedRewire old new S k m c d0 d1 w ty K port p) (env : Env) (he : MaskEnv env old S k c d0 d1 w p cb) :
     ∀ j, S j = false → (evalNet env new).getD j none = (evalNet env old).getD j none := by
   -- the value of the bypassed mux
   have hmv : (evalNet env old).getD m none =
-      some (evalMux w [(evalNet env old).getD c none, (evalNet env old).getD a none, (evalNet env old).getD b none]) := by
+      some (evalMux w [(evalNet env old).getD c none, (evalNet env old).getD d0 none, (evalNet env old).getD d1 none]) := by
     rw [evalNet_node env old h.topo m _ h.hm]
     simp [evalNetNode, evalNode, gather]
   obtain ⟨va, hva, hwa⟩ := he.awidth
-  rcases he.cdef with hct | hcf
-  · -- c = 1: the taint is real; untainted nodes never look at it
-    apply agree_outside env old new h.len S
-    intro j n' hn' hs ih
-    have hjk : j ≠ k := by intro e; rw [e, h.sk] at hs; cases hs
-    have hold : old[j]? = some n' := by rw [← h.same j hjk]; exact hn'
-    rw [evalNet_node env old h.topo j n' hold]
-    have hlt : j < new.length := (List.getElem?_eq_some_iff.mp hn').1
-    -- values the node reads in `new`
-    have hread : ∀ i, some i ∈ n'.ins → S i = false →
-        (evalNet env (new.take j)).getD i none = (evalNet env old).getD i none := by
-      intro i hi hsi
-      have hij : i < j := h.topo j n' hold i hi
-      rw [evalNet_take_getD env new j i hij (by omega)]
-      exact ih i hij hsi
-    by_cases hjlt : j < k
-    · apply evalNetNode_congr; apply gather_congr
-      intro i hi
-      exact hread i hi (h.sbefore i (by have := h.topo j n' hold i hi; omega))
-    · rcases h.after j n' (by omega) hold hs with hclean | ⟨ty', w', c', d0, d1, hn, hsc, hsd, hck⟩
-      · apply evalNetNode_congr; apply gather_congr
-        intro i hi
-        exact hread i hi (hclean i hi)
-      · subst hn
-        have rc := hread c' (by simp) hsc
-        have rd := hread d1 (by simp) hsd
-        by_cases htaint : ∃ i, d0 = some i ∧ S i = true
-        · have hcv := he.conds j ty' w' c' d0 d1 (by omega) hold hs htaint
-          rw [hct] at hcv
-          simp only [evalNetNode, evalNode, gather, List.map_cons, List.map_nil, rc, rd, hcv]
-          rw [evalMux_t_ignores]
-        · -- data input 0 is not tainted after all
-          apply evalNetNode_congr; apply gather_congr
-          intro i hi
-          simp only [List.mem_cons, List.mem_nil_iff, or_false, Option.some.injEq] at hi
-          rcases hi with rfl | hi | rfl
-          · exact rc
-          · have : S i = false := by
-              cases hsi : S i with
-              | false => rfl
-              | true => exact absurd ⟨i, hi.symm, hsi⟩ htaint
-            exact hread i (by simp [hi]) this
-          · exact rd
-  · -- c = 0: the mux is its input `a`; nothing changes at all
-    have hma : (evalNet env old).getD m none = (evalNet env old).getD a none := by
-      rw [hmv, hcf, hva, evalMux_sel_f, copyIn_of_length hwa]
+  by_cases hcp : cb = p
+  · -- the mux selects the input the consumer is rewired to: nothing changes at all
+    have hma : (evalNet env old).getD m none = (evalNet env old).getD (pick p d0 d1) none := by
+      rw [hmv, he.cval, evalMux_ofBool, hcp]
+      have : pick p ((evalNet env old).getD d0 none) ((evalNet env old).getD d1 none) = (evalNet env old).getD (pick p d0 d1) none := by
+        cases p <;> rfl
+      rw [this, hva, copyIn_of_length hwa]
     intro j _
     apply agree_outside env old new h.len (fun _ => false) ?_ j rfl
     intro j n' hn' _ ih
@@ -167,8 +152,7 @@ theorem masked_rewire_defined {old new : List NetNode} {S : Nat → Bool} {k m c
       rw [h.hK'] at hn'
       cases hn'
       rw [evalNet_node env old h.topo j K h.hK]
-      refine evalNetNode_congr2 env _ _ K { K with ins := K.ins.set port (some a) } rfl rfl ?_
-      -- the rewired port reads `a`, which has the value of `m`
+      refine evalNetNode_congr2 env _ _ K { K with ins := K.ins.set port (some (pick p d0 d1)) } rfl rfl ?_
       unfold gather
       simp only
       apply List.ext_getElem?
@@ -178,9 +162,10 @@ theorem masked_rewire_defined {old new : List NetNode} {S : Nat → Bool} {k m c
       · subst hq
         have hpl : port < K.ins.length := (List.getElem?_eq_some_iff.mp h.hport).1
         simp only [hpl, if_true, h.hport, Option.map_some]
-        have ha_lt : a < j := by
-          have := h.topo m _ h.hm a (by simp); have := h.hmk; omega
-        rw [hread a ha_lt, ← hma]
+        have ha_lt : pick p d0 d1 < j := by
+          have h0 := h.topo m _ h.hm d0 (by simp); have h1 := h.topo m _ h.hm d1 (by simp); have := h.hmk
+          cases p <;> simp [pick] <;> omega
+        rw [hread _ ha_lt, ← hma]
       · simp only [hq, if_false]
         cases hx : K.ins[q]? with
         | none => rfl
@@ -190,11 +175,59 @@ theorem masked_rewire_defined {old new : List NetNode} {S : Nat → Bool} {k m c
           | some i =>
             simp only [Option.map_some]
             have : some i ∈ K.ins := List.mem_of_getElem? hx
-            exact congrArg some (hread i (h.topo j K h.hK i this)) |> fun e => by simpa using hread i (h.topo j K h.hK i this)
+            simpa using hread i (h.topo j K h.hK i this)
     · have hold : old[j]? = some n' := by rw [← h.same j hjk]; exact hn'
       rw [evalNet_node env old h.topo j n' hold]
       apply evalNetNode_congr; apply gather_congr
       intro i hi
       exact hread i (h.topo j n' hold i hi)
+  · -- the taint is real; untainted nodes never look at it
+    apply agree_outside env old new h.len S
+    intro j n' hn' hs ih
+    have hjk : j ≠ k := by intro e; rw [e, h.sk] at hs; cases hs
+    have hold : old[j]? = some n' := by rw [← h.same j hjk]; exact hn'
+    rw [evalNet_node env old h.topo j n' hold]
+    have hlt : j < new.length := (List.getElem?_eq_some_iff.mp hn').1
+    have hread : ∀ i, some i ∈ n'.ins → S i = false →
+        (evalNet env (new.take j)).getD i none = (evalNet env old).getD i none := by
+      intro i hi hsi
+      have hij : i < j := h.topo j n' hold i hi
+      rw [evalNet_take_getD env new j i hij (by omega)]
+      exact ih i hij hsi
+    by_cases hjlt : j < k
+    · apply evalNetNode_congr; apply gather_congr
+      intro i hi
+      exact hread i hi (h.sbefore i (by have := h.topo j n' hold i hi; omega))
+    · rcases h.after j n' (by omega) hold hs with hclean | ⟨ty', w', c', e0, e1, hn, hsc⟩
+      · apply evalNetNode_congr; apply gather_congr
+        intro i hi
+        exact hread i hi (hclean i hi)
+      · subst hn
+        have rc := hread c' (by simp) hsc
+        by_cases htaint : ∃ i, (e0 = some i ∨ e1 = some i) ∧ S i = true
+        · obtain ⟨s, hcv, hsel⟩ := he.conds hcp j ty' w' c' e0 e1 (by omega) hold hs htaint
+          -- both evaluations select data input `s`, which is untainted
+          have hpick : pick s (lookV (evalNet env (new.take j)) e0) (lookV (evalNet env (new.take j)) e1) =
+                       pick s (lookV (evalNet env old) e0) (lookV (evalNet env old) e1) := by
+            cases s
+            · simp only [pick, Bool.false_eq_true, if_false]
+              exact lookV_congr _ _ e0 (fun i hi => hread i (by simp [hi]) (hsel i (by simp [pick, hi])))
+            · simp only [pick, if_true]
+              exact lookV_congr _ _ e1 (fun i hi => hread i (by simp [hi]) (hsel i (by simp [pick, hi])))
+          have rc' : lookV (evalNet env (new.take j)) (some c') = some [B4.ofBool s] := by simp only [lookV]; rw [rc, hcv]
+          have hcv' : lookV (evalNet env old) (some c') = some [B4.ofBool s] := by simp only [lookV]; exact hcv
+          simp only [evalNetNode, evalNode, gather3, rc', hcv', evalMux_ofBool, hpick]
+        · apply evalNetNode_congr; apply gather_congr
+          intro i hi
+          have : S i = false := by
+            cases hsi : S i with
+            | false => rfl
+            | true =>
+              simp only [List.mem_cons, List.mem_nil_iff, or_false, Option.some.injEq] at hi
+              rcases hi with rfl | hi | hi
+              · rw [hsc] at hsi; cases hsi
+              · exact absurd ⟨i, Or.inl hi.symm, hsi⟩ htaint
+              · exact absurd ⟨i, Or.inr hi.symm, hsi⟩ htaint
+          exact hread i hi this
 
 end Gatery.C01
